@@ -146,8 +146,20 @@ impl Unknown {
         match (&mut self.0, other.0) {
             (Inner::Exact(lhs), Inner::Exact(rhs)) => lhs.merge_keep(*rhs, overwrite),
             (Inner::Infinite(lhs), Inner::Infinite(rhs)) => lhs.merge(rhs),
-            (_, rhs @ Inner::Infinite(_)) => self.0 = rhs,
-            (Inner::Infinite(_), _) => {}
+            (Inner::Exact(lhs), Inner::Infinite(rhs)) => {
+                // The finite variant is only covered by a non-`any` infinite one if it holds
+                // nothing but JSON kinds at every depth, otherwise widen.
+                self.0 = if rhs.is_any() || (rhs.is_json() && is_within_json(lhs)) {
+                    Inner::Infinite(rhs)
+                } else {
+                    Inner::Infinite(Infinite::any())
+                };
+            }
+            (Inner::Infinite(lhs), Inner::Exact(rhs)) => {
+                if !(lhs.is_any() || (lhs.is_json() && is_within_json(&rhs))) {
+                    *lhs = Infinite::any();
+                }
+            }
         }
     }
 }
